@@ -26,6 +26,11 @@ class FixedPin:
         return False
 
 
+class _GoneClient(io.BytesIO):
+    def write(self, data):
+        raise ConnectionResetError(104, "Connection reset by peer")
+
+
 class Stack:
     """platform: 'ledger' (HSM2Dongle over fake HID), 'sgx' (HSM2DongleSGX over
     fake socket), 'tcp' (HSM2DongleTCP over fake socket)."""
@@ -89,13 +94,14 @@ class Stack:
     def initialize(self):
         return self.protocol.initialize_device()
 
-    def handle_line(self, line):
+    def handle_line(self, line, client_gone=False):
         """Feed one raw request line (bytes) through the real server-side
-        handler.  Returns (output bytes, exception or None)."""
+        handler.  Returns (output bytes, exception or None).  client_gone: the client
+        has reset its connection by the time the reply is written."""
         from comm.server import _RequestHandler
         h = _RequestHandler(self.protocol, logging.getLogger("pv"))
         rf = io.BytesIO(line)
-        wf = io.BytesIO()
+        wf = _GoneClient() if client_gone else io.BytesIO()
         exc = None
         try:
             h.handle("client", rf, wf)
@@ -105,8 +111,8 @@ class Stack:
             exc = e
         return wf.getvalue(), exc
 
-    def request(self, obj):
-        out, exc = self.handle_line(json.dumps(obj).encode() + b"\n")
+    def request(self, obj, client_gone=False):
+        out, exc = self.handle_line(json.dumps(obj).encode() + b"\n", client_gone)
         reply = None
         try:
             reply = json.loads(out.decode())
